@@ -10,7 +10,9 @@ Ops (one case = one run of the state machine `Sentinel.System.step`):
 * `load <metric>/<strategy>/<f:bits> …`      `system.LoadRules` (metric 0 load 1 avgRT 2 concurrency 3 qps 4 cpu; strategy -1 none, 1 BBR)
 * `sys load|cpu <f:bits>`                    `system_metric.SetSystemLoad / SetSystemCpuUsage`
 * `entry <id> <res> in|out|default <batch|->`  => `pass` | `block sys`   (`default`: no WithTrafficType option = outbound; `-`: no WithBatchCount option = 1)
-* `exit <id>`
+* `exit <id> [err]`                         `Exit()` / `Exit(WithError(…))`
+* `sys mem <int>`                            `SetSystemMemoryUsage` (not an input of any system rule)
+* `rules`  => `system.GetRules()` sorted; a `nil` token in `load` is a nil pointer in the slice
 * `remod <i> <metric>/<strategy>/<f:bits>`    element `i` of the slice loaded last is changed in place and the same slice is loaded again
 * `stat`  => the inbound aggregates the slot reads
 -/
@@ -30,6 +32,8 @@ def fA : Arith Float :=
 def init : St Float := { load := -1.0, cpu := -1.0 }
 
 def parseRule? (t : String) : Option (Rule Float) :=
+  -- a nil pointer in the slice handed to `LoadRules`: invalid ("nil Rule"), never in force
+  if t == "nil" then some { metric := 4294967295, strategy := 0, trigger := 0.0 } else
   match t.splitOn "/" with
   | [m, s, f] => match m.toNat?, s.toInt?, parseFbits? f with
       | some m, some s, some f => some { metric := m, strategy := s, trigger := f }
@@ -56,6 +60,8 @@ def parseOp? : List String → Option (Op Float)
       | "default", some b => some (.entry id false b)
       | _, _ => none
   | ["exit", id] => some (.exit id)
+  | ["exit", id, "err"] => some (.exitErr id)
+  | ["sys", "mem", x] => x.toInt?.map .sysMem
   | _ => none
 
 def showRes : Res → Option String
@@ -68,7 +74,8 @@ def statLine (spec : Bool) (s : St Float) : String :=
   let v : View Float := viewOf spec s
   let blk := if spec then (refW gL s.hist (cbs gL s.now + gL - vI) (cbs gL s.now)).block else vSum s.arr vI s.now .block
   let maxavg := v.maxComplete.toFloat * vS.toFloat / vI.toFloat * 1000.0
-  s!"[p={v.pass} b={blk} c={v.complete} conc={v.conc} avgrt={fbits (fA.avgRt (avgRtOf v))} minrt={fbits v.minRt.toFloat} qps={fbits (fA.qps v.pass)} maxavg={fbits maxavg}]"
+  let errs := if spec then (refW gL s.hist (cbs gL s.now + gL - vI) (cbs gL s.now)).error else vSum s.arr vI s.now .error
+  s!"[p={v.pass} b={blk} c={v.complete} e={errs} conc={v.conc} avgrt={fbits (fA.avgRt (avgRtOf v))} minrt={fbits v.minRt.toFloat} qps={fbits (fA.qps v.pass)} maxavg={fbits maxavg}]"
 
 /-- driver state: the machine state plus the caller's last rule slice (for `remod`) -/
 structure DSt where
@@ -81,6 +88,10 @@ def stepLine (spec : Bool) (d : DSt) (ts : List String) (_ : String) : DSt × Op
   let s := d.s
   match ts with
   | ["stat"] => if s.started then (d, some (statLine spec s)) else (d, some "bad-op")
+  | ["rules"] =>
+    -- `system.GetRules()`: the rules in force, as a sorted multiset
+    let show1 (r : Rule Float) : String := s!"{r.metric}/{r.strategy}/{fbits r.trigger}"
+    (d, some (showList ((s.rules.map show1).toArray.qsort (· < ·)).toList))
   | ["remod", i, r] =>
     match i.toNat?, parseRule? r with
     | some i, some r =>
